@@ -289,6 +289,15 @@ def check(pid, tier, only=None, jobs=None, seed=0, quiet=False):
                                                   % (ob.name, v, ob.tags[v]))
                 # a listed finding that is no longer refuted: the defect is gone; say nothing
 
+    # --- declared concrete dry runs (no solver): must all pass, and count towards "entered"
+    dry_info = None
+    if hasattr(hmod, 'dry_runs') and not only:
+        dry_info = run_replay({'mode': 'dry', 'module': modname}, timeout=600)
+        entered_all.update(dry_info.get('entered', []))
+        if dry_info.get('fatal') or dry_info.get('n_dry_failures'):
+            status['harness_errors'].append('concrete dry runs failed: %s' % json.dumps(
+                {k: dry_info.get(k) for k in ('fatal', 'n_dry_failures', 'dry_failures')})[:600])
+
     # --- encoded functions actually entered (concrete dry runs = the replayed witnesses)
     not_entered = []
     for e in enc_info:
@@ -341,6 +350,7 @@ def check(pid, tier, only=None, jobs=None, seed=0, quiet=False):
             'solver_queries': int(tot['solver_calls']), 'solver_time_s': round(tot['solver_time_s'], 2),
             'cpu_s': round(tot['cpu_s'], 1),
             'translator_validation': tv,
+            'concrete_dry_runs': None if dry_info is None else {k: dry_info.get(k) for k in ('dry_runs', 'n_dry_failures')},
             'stubs': getattr(hmod, 'STUBS', []),
             'outside_claim': getattr(hmod, 'OUTSIDE', []),
             'known_findings_seen': [f['what'] for f, _ in status['known_seen']],
